@@ -11,6 +11,8 @@ import (
 	"encoding/base64"
 	"fmt"
 	"io"
+	"net/http"
+	"net/http/httptest"
 	"os"
 	"path/filepath"
 	"runtime"
@@ -88,6 +90,9 @@ type EnvOpts struct {
 	Contextualizer  ketoctx.Contextualizer
 	Extra           map[string]any
 	LogLevel        string
+	// OPLViaHTTP: deliver OPL through an http:// location (a loopback server of the
+	// test process; one path, the document selected by the query string)
+	OPLViaHTTP bool
 	// ConfigFile: a configuration file the provider loads and WATCHES (hot reload),
 	// next to the values above (which win over the file)
 	ConfigFile string
@@ -151,6 +156,8 @@ func newEnv(t testing.TB, o EnvOpts) (*Env, error) {
 	switch {
 	case o.OPLLocation != "":
 		values[config.KeyNamespaces] = map[string]any{"location": o.OPLLocation, "experimental_strict_mode": o.Strict}
+	case o.OPL != "" && o.OPLViaHTTP:
+		values[config.KeyNamespaces] = map[string]any{"location": oplHTTPLocation(o.OPL), "experimental_strict_mode": o.Strict}
 	case o.OPL != "":
 		values[config.KeyNamespaces] = map[string]any{
 			"location":                 "base64://" + base64.StdEncoding.EncodeToString([]byte(o.OPL)),
@@ -743,4 +750,31 @@ func (e *Env) injectStatementFault(kind string) (undo func() error, err error) {
 		}
 	}
 	return undo, nil
+}
+
+// ---------------------------------------------------------------------------
+// OPL documents served over loopback HTTP: ONE path, the document chosen by the
+// query string (http://127.0.0.1:port/namespaces.ts?doc=17), the way a
+// configuration service or a pre-signed URL would serve tenants / versions.
+
+var (
+	oplHTTPOnce sync.Once
+	oplHTTPSrv  *httptest.Server
+	oplHTTPDocs sync.Map // id -> text
+	oplHTTPNext atomic.Int64
+)
+
+func oplHTTPLocation(text string) string {
+	oplHTTPOnce.Do(func() {
+		oplHTTPSrv = httptest.NewServer(http.HandlerFunc(func(w http.ResponseWriter, r *http.Request) {
+			if v, ok := oplHTTPDocs.Load(r.URL.Query().Get("doc")); ok {
+				_, _ = io.WriteString(w, v.(string))
+				return
+			}
+			http.NotFound(w, r)
+		}))
+	})
+	id := fmt.Sprint(oplHTTPNext.Add(1))
+	oplHTTPDocs.Store(id, text)
+	return oplHTTPSrv.URL + "/namespaces.ts?doc=" + id
 }
